@@ -20,7 +20,7 @@ RULE = ("(half of the products carry a random scene id incl. leap days; director
 ASSUMPTIONS = ["file names always carry a polarisation (the naming rule presumes it)",
                "'summary order' of the images is the order of their ProductFileNameNN ordinals",
                "order of /metadata children is not asserted, only the set"]
-REQUIRED_OBS = ["products", "image_groups_checked", "replaced_in_place"]
+REQUIRED_OBS = ["products", "image_groups_checked", "replaced_in_place", "trees_via_cache"]
 N = {"quick": 300, "thorough": 8000}
 
 
@@ -53,8 +53,13 @@ def run_case(i, tier, seed):
     url = synth.install(files, root, kind)
     sig = f"{level}|pols:{n_pols}|scans:{len(scans) if scans != [None] else 0}|mp:{n_mp}|shuf:{int(shuffled)}|{kind}|order:{image_order}"
     try:
+        via_cache = i % 4 == 2
         try:
-            tree = harness.open_tree(url, use_cache=False, records_per_chunk=rng.choice([1, 2, 1024]))
+            if via_cache:
+                # the assembled tree a user gets on later opens: image groups decoded from index caches written by an earlier open
+                harness.open_tree(url, use_cache=False, create_cache=True, records_per_chunk=rng.choice([1, 3, 1024]))
+                obs["trees_via_cache"] = 1
+            tree = harness.open_tree(url, use_cache=via_cache, records_per_chunk=rng.choice([1, 2, 1024]))
         except Exception as e:
             return {"sig": sig, "evals": 1, "obs": obs, "nontrivial": False,
                     "violations": [{"what": f"open raised on a well-formed product: {harness.exc_sig(e)}",
@@ -132,6 +137,12 @@ def run_case(i, tier, seed):
                 violations.append({"what": f"/{p} missing", "detail": {}})
     finally:
         synth.uninstall(files, root, kind)
+        if i % 4 == 2:
+            import shutil
+
+            from vf import cachelib
+
+            shutil.rmtree(cachelib.user_cache_root(), ignore_errors=True)
     if i % 3 == 0:
         # the product directory is re-delivered: same root, same file names, new content in every file; second open in this process
         pols = list(dict.fromkeys(n.split("-")[1] for n in imgs))
